@@ -1,1 +1,2 @@
 import DefconModel.Drivers.Notify
+import DefconModel.Drivers.Geom
